@@ -25,6 +25,19 @@ for name in sorted(os.listdir(sd)):
                                stdout=subprocess.PIPE, stderr=subprocess.STDOUT, text=True)
             viol = [l for l in r.stdout.split('\n') if l.startswith('VIOLATION')]
             rows.append((name, pid, r.returncode, len(viol), viol[0] if viol else ''))
+            kinds = []
+            for v in viol:
+                try:
+                    kinds.append(json.load(open(v.split('replay=')[1].split()[0])).get('kind', '?'))
+                except Exception:
+                    kinds.append('?')
+            caught = r.returncode == 1 and bool(viol)
+            meta.setdefault('results', {})[pid] = {
+                'tier': tier, 'caught': caught, 'violation_lines': len(viol), 'kinds': sorted(set(kinds)),
+                'no_failing_input_found_only': bool(viol) and all('no-failing-input-found' in v for v in viol),
+                'broken_obligations': [l.strip() for l in r.stdout.split('\n') if l.startswith('[') and 'obligations=' in l][-1:]}
+            meta['result'] = ('CAUGHT by bin/check ' + pid + ' (' + ', '.join(sorted(set(kinds))) + ')') if caught else 'MISSED by bin/check ' + pid
+            json.dump(meta, open(os.path.join(d, 'meta.json'), 'w'), indent=1)
             print(f'{name:28s} {pid} exit={r.returncode} violations={len(viol)} {"CAUGHT" if r.returncode == 1 and viol else "MISSED"}'
                   f'{" (no-failing-input-found)" if viol and all("no-failing-input-found" in v for v in viol) else ""}', flush=True)
             for d in os.listdir(os.path.join(HERE, '.run')):
